@@ -54,8 +54,10 @@ def build_registry(obj, is_server, is_async_cls, coro, mask, other, ns, log,
         obj.on('*', fn(1, '*'), namespace=ns)
     if mask & 8:
         obj.on('*', fn(3, '*'), namespace='*')
-    if other:
+    if other in (True, 'ns', 'both'):
         obj.on('unrelated', fn(9, 'unrelated'), namespace=ns)
+    if other in ('star', 'both'):
+        obj.on('unrelated2', fn(9, 'unrelated2'), namespace='*')
     if is_server:
         base = socketio.AsyncNamespace if is_async_cls else socketio.Namespace
     else:
@@ -175,7 +177,7 @@ def job(args):
     n = 0
     nontrivial = 0
     for mask in range(64):
-        for other in (False, True):
+        for other in (False, 'ns', 'star', 'both'):
             if cls.endswith('Server'):
                 v = run_server(cls, coro, mask, other, nsname)
                 n += 5
@@ -220,7 +222,8 @@ def run(tier, seed, result):
     ]
     return dict(
         rule='all 2^6 presence/absence combinations of the six target kinds '
-             'x {namespace has an unrelated handler or not} x 6 class/'
+             'x {unrelated handler on the namespace / on the catch-all '
+             'namespace / both / none} x 6 class/'
              'handler-style variants x 2 namespace names; each registry is '
              'driven with connect, 3 ordinary events (0-2 arguments), '
              'disconnect (and connect_error on clients). Non-trivial = '
